@@ -15,6 +15,7 @@ CONSTANTS CellNames, PatNames, MaxCopies, MaxDecoys, MaxAtoms, AnchorSet, DecoyS
 
 \* anchors: interior, the three faces, three edges, the corner, and the far corner (-1 = last lattice plane)
 AnchB == {<<8,8,7>>, <<0,9,2>>, <<-1,-1,-1>>}
+AnchM == {<<2,3,10>>, <<-8,-6,-1>>}
 AnchH == {<<2,3,4>>, <<30,0,41>>, <<-1,-1,-1>>}
 AnchQ == {<<2,2,2>>, <<0,2,2>>, <<2,0,2>>, <<2,2,0>>, <<0,0,2>>, <<2,0,0>>, <<0,0,0>>, <<-1,-1,-1>>}
 AnchT == AnchQ \cup {<<0,2,0>>, <<-1,2,2>>, <<2,-1,2>>, <<2,2,-1>>, <<-1,-1,2>>, <<-1,0,0>>, <<1,3,1>>, <<3,1,4>>}
@@ -27,6 +28,11 @@ RotsQ == {SignedPerm(<<1,2,3>>, <<1,1,1>>), SignedPerm(<<2,1,3>>, <<1,1,-1>>), S
 MirrorOf(M) == <<VMul3(-1, M[1]), M[2], M[3]>>
 
 At(e, x, y, z) == [el |-> e, pos |-> <<x, y, z>>]
+
+\* 25 atoms on a planar grid of spacing 4 (one element per row) and a Zn over the centre of a grid square
+GridEl(r) == <<"C", "N", "O", "S", "Si">>[r]
+Grid26 == [i \in 1..26 |-> IF i = 26 THEN At("Zn", 6, 6, 0)
+                           ELSE At(GridEl(((i - 1) \div 5) + 1), 4 * ((i - 1) % 5), 4 * ((i - 1) \div 5), 0)]
 
 Pat(p) ==
   CASE p = "P1"    -> <<At("Zn",0,0,0)>>
@@ -43,6 +49,8 @@ Pat(p) ==
     [] p = "P4ax"  -> <<At("C",0,0,0), At("N",3,0,0), At("O",1,1,0), At("F",1,0,1)>>    \* chiral, longest axis along x
     [] p = "P4flat" -> <<At("C",0,0,0), At("N",5,0,-1), At("O",0,5,-1), At("F",1,1,0)>>  \* shallow chirality
     [] p = "P3long" -> <<At("C",0,0,0), At("N",20,0,0), At("O",40,0,0)>>   \* long collinear triple for bent decoys, see Bend
+    [] p = "P4half" -> <<At("C",0,0,0), At("N",2,0,0), At("O",0,1,0), At("F",0,0,3)>>   \* in the cubic cell of width 6 the mirror image of F is a periodic image of F
+    [] p = "P26dome" -> Grid26                                            \* 5 x 5 planar grid + one atom over a square centre, see Dome
     [] p = "P5"    -> <<At("C",0,0,0), At("N",2,0,0), At("O",0,1,0), At("H",0,0,1), At("H",1,1,1)>>
 
 Cell(c) ==
@@ -55,6 +63,8 @@ Cell(c) ==
     [] c = "bigtri" -> <<<<10,0,0>>, <<-3,11,0>>, <<2,-4,9>>>>
     [] c = "huge"   -> <<<<44,0,0>>, <<0,45,0>>, <<0,0,46>>>>
     [] c = "hugetri" -> <<<<44,0,0>>, <<2,45,0>>, <<-1,3,46>>>>
+    [] c = "mid"    -> <<<<30,0,0>>, <<0,31,0>>, <<0,0,32>>>>
+    [] c = "midtri" -> <<<<30,0,0>>, <<-2,31,0>>, <<1,3,32>>>>
     [] c = "narrow" -> <<<<2,0,0>>, <<0,6,0>>, <<0,0,6>>>>      \* violates the width precondition for patterns of diameter >= 2
 
 Chiral(P) == \E i, j, k, l \in 1..Len(P) :
@@ -116,6 +126,18 @@ Bend == /\ ndecoys < MaxDecoys /\ "bend" \in DecoyKinds /\ Len(P) = 3
              PlantWith(M, v, [P EXCEPT ![2].pos = VAdd3(@, d)], "Bend")
         /\ ndecoys' = ndecoys + 1 /\ UNCHANGED <<ncopies, planted>>
 
+(* A domed copy of the 26-atom planar pattern: the Zn one lattice unit out of the plane.  This configuration is   *)
+(* searched with the tolerance class tol = 1/4 lattice unit: every Zn-grid distance changes by at most              *)
+(* 3 - sqrt(8) = 0.17 < tol, the root-mean-square deviation of the best fit is 1/sqrt(26) = 0.196 < tol, but the    *)
+(* Zn itself is 4 tol away from where the pattern puts it (0.96 lattice units under the best rigid fit): clearly     *)
+(* outside "each atom within the tolerance".  By the definition (exact squared distances) it is not an occurrence;  *)
+(* a search that compares distances only, or an average deviation, reports it.  In these crystals (copy + domed copy *)
+(* far apart, one element per grid row) no other candidate comes within the tolerance.                              *)
+Dome == /\ ndecoys < MaxDecoys /\ "dome" \in DecoyKinds /\ Len(P) = 26
+        /\ \E M \in Pick(DecoyRots, 2), v \in Anchors(cell), d \in {<<0,0,1>>, <<0,0,-1>>} :
+             PlantWith(M, v, [P EXCEPT ![26].pos = VAdd3(@, d)], "Dome")
+        /\ ndecoys' = ndecoys + 1 /\ UNCHANGED <<ncopies, planted>>
+
 \* a same-element distractor next to something
 AddAtom == /\ ndecoys < MaxDecoys /\ Len(atoms) < MaxAtoms /\ Len(atoms) > 0 /\ "atom" \in DecoyKinds
            /\ \E e \in {P[i].el : i \in 1..Len(P)}, v \in Pick(DecoySet, 3) :
@@ -132,7 +154,7 @@ Shift == /\ Len(atoms) > 0 /\ ~shifted /\ shifted' = TRUE
               /\ hist' = Append(hist, [op |-> "Shift", v |-> v])
          /\ UNCHANGED <<cell, pat, planted, ncopies, ndecoys>>
 
-Next == Plant \/ PlantMirror \/ NearMiss \/ Bend \/ AddAtom \/ Shift
+Next == Plant \/ PlantMirror \/ NearMiss \/ Bend \/ Dome \/ AddAtom \/ Shift
 Spec == Init /\ [][Next]_vars
 
 ---------------------------------------------------------------------------
@@ -164,7 +186,7 @@ MirrorMargin(Q) == \A i, j, k, l \in 1..Len(Q) :
        n2 == Norm2(Cross3(VSub3(Q[j].pos, Q[i].pos), VSub3(Q[k].pos, Q[i].pos)))
    IN d # 0 => d * d * 1024 > 3 * n2
 \* (the long collinear pattern is exempt: its only near-candidates are the bent decoys, argued at Bend)
-ASSUME \A p \in PatNames \ {"P3long"} : MirrorMargin(Pat(p)) /\ Diameter2(PatPos(Pat(p))) <= 60
+ASSUME \A p \in PatNames \ {"P3long", "P26dome"} : MirrorMargin(Pat(p)) /\ Diameter2(PatPos(Pat(p))) <= 60
 
 \* replacement patterns offered for a search pattern Q (used by the replace drivers): identical, one element
 \* substituted, one atom added off-axis, empty, first atom only, nothing in common
